@@ -13,6 +13,7 @@ package main
 // Rules classify paths and compare the resulting decision table with an oracle.
 
 import (
+	"os"
 	"math/bits"
 	"fmt"
 	"go/constant"
@@ -458,6 +459,11 @@ func (p *Program) Explore(fn *ssa.Function, opts Opts) ([]*Path, error) {
 	for i, prm := range fn.Params {
 		if i < len(opts.Args) && opts.Args[i] != nil {
 			fr.env[prm] = opts.Args[i]
+		} else if v := p.plumbedParam(fn, i); v != nil {
+			fr.env[prm] = v
+			if x, ok := it.valLookup(v.(*Expr).Name); ok {
+				fr.env[prm] = x // the rule's valuation of that field
+			}
 		}
 	}
 	fr.visited[fr.block] = 1
@@ -467,6 +473,84 @@ func (p *Program) Explore(fn *ssa.Function, opts Opts) ([]*Path, error) {
 		return it.paths, fmt.Errorf("path limit %d exceeded in %s", opts.MaxPaths, p.rawName(fn))
 	}
 	return it.paths, nil
+}
+
+// plumbedParam: signature plumbing. A parameter that a reference function did not have in the reference tree and to which
+// every call site passes the current value of one and the same field path rooted at a parameter or receiver
+// (writeFramePayload(c.writeHeader.masked, …) instead of reading c.writeHeader.masked inside) stands for that field: the
+// function is analysed as if it still read the field itself. nil when this does not apply.
+func (p *Program) plumbedParam(fn *ssa.Function, idx int) AV {
+	name := p.rawName(fn)
+	if fn.Parent() != nil || !knownFuncs[name] || idx >= len(fn.Params) {
+		return nil
+	}
+	ref := knownParams[name]
+	if len(ref) == len(fn.Params) {
+		return nil // same arity as in the reference tree: the ordinary rename resolution applies
+	}
+	prm := fn.Params[idx]
+	for _, r := range ref {
+		if strings.HasPrefix(r, prm.Name()+"|") {
+			return nil // a parameter the reference function already had
+		}
+	}
+	sites := p.CallersOf(fn)
+	if len(sites) == 0 {
+		return nil
+	}
+	key := ""
+	for _, cs := range sites {
+		args := cs.Instr.Common().Args
+		if idx >= len(args) {
+			return nil
+		}
+		u, ok := args[idx].(*ssa.UnOp)
+		if !ok || u.Op != token.MUL {
+			return nil
+		}
+		k := ""
+		var walk func(v ssa.Value) bool
+		walk = func(v ssa.Value) bool {
+			switch x := v.(type) {
+			case *ssa.FieldAddr:
+				if !walk(x.X) {
+					return false
+				}
+				stt, ok := derefType(x.X.Type()).Underlying().(*types.Struct)
+				if !ok {
+					return false
+				}
+				if k == "" {
+					k = typeShort(x.X.Type())
+				}
+				k = joinField(k, fieldName(stt.Field(x.Field)))
+				return true
+			case *ssa.Parameter, *ssa.FreeVar:
+				return true
+			case *ssa.UnOp:
+				// a pointer field on the way (c.msgWriter.flate): continue from the pointee's type
+				if x.Op == token.MUL {
+					if _, ok := x.X.(*ssa.FieldAddr); ok && walk(x.X) {
+						k = ""
+						return true
+					}
+					if _, ok := x.X.(*ssa.Alloc); ok {
+						return true // a parameter or receiver spilled to a local (functions with defers or closures)
+					}
+				}
+			}
+			return false
+		}
+		if !walk(u.X) || k == "" {
+			return nil
+		}
+		if key != "" && key != k {
+			return nil
+		}
+		key = k
+	}
+	p.RenameNotes = append(p.RenameNotes, fmt.Sprintf("parameter %s of %s is new; every call site passes the current value of %s, which it stands for", prm.Name(), name, key))
+	return &Expr{Op: "load", Name: key, T: prm.Type()}
 }
 
 func (it *interp) finish(st *state, end string, ret []AV, loopTo *ssa.BasicBlock) {
